@@ -1073,6 +1073,29 @@ def r_pwd(ctx, rep):
                 rep.holds("R-PWD", key3, loc(new.raw), "check_for_password_protected(..)? precedes parse_content unconditionally")
             else:
                 rep.violation("R-PWD", key3, loc(new.raw), "Ods::new must run check_for_password_protected(..)? unconditionally before parse_content (found %s)" % seq)
+    # (1b) the sniff parses the container from its first byte: the last seek before Cfb::new is Start(0)
+    for sn_name in ("xlsx::check_for_password_protected", "xlsb::check_for_password_protected"):
+        sn = F.fn(sn_name)
+        if sn is None:
+            continue
+        key = "%s|R-PWD|rewind" % sn_name
+        cfbnew = [c for c in walk_k(sn.body, "Call") if (callee(c) or "").endswith("cfb::Cfb::new")]
+        if not cfbnew:
+            rep.anchor_missing("R-PWD", "Cfb::new call in %s" % sn_name)
+            continue
+        at = (cfbnew[0]["span"]["l"], cfbnew[0]["span"]["c"])
+        seeks = [c for c in walk_k(sn.body, "MethodCall", "Call") if (callee_decl(c) or "") == "std::io::Seek::seek" and (c["span"]["l"], c["span"]["c"]) < at]
+        last = max(seeks, key=lambda c: (c["span"]["l"], c["span"]["c"])) if seeks else None
+        ok = False
+        if last is not None:
+            arg = (last.get("args") or [None])[-1]
+            for c in walk_k(arg, "Call"):
+                if (callee(c) or "").endswith("SeekFrom::Start") and c.get("args") and lit_value(c["args"][0]) == 0:
+                    ok = True
+        if ok:
+            rep.holds("R-PWD", key, loc(last), "the reader is rewound to SeekFrom::Start(0) before the compound-file parse")
+        else:
+            rep.violation("R-PWD", key, loc(last or cfbnew[0]), "%s does not rewind the reader to offset 0 (SeekFrom::Start(0)) right before Cfb::new: Cfb::new parses from the current position and its error is swallowed, so a handle that is not at offset 0 makes an encrypted package look unencrypted (an unrelated Zip error instead of Password)" % sn_name)
     # (4) Password variants constructed nowhere else
     allowed = {"xlsx::check_for_password_protected", "xlsb::check_for_password_protected", "xls::Xls::parse_workbook", "ods::check_for_password_protected"}
     for f in F.user_fns():
@@ -1083,7 +1106,19 @@ def r_pwd(ctx, rep):
             if d.endswith("Error::Password") and n.get("ty", "").find("fn(") < 0:
                 key = "%s|R-PWD|ctor" % f.name
                 # patterns are not Path exprs; this is a construction
-                if f.name in allowed:
+                if f.name == "xls::Xls::parse_workbook":
+                    # only the FILEPASS arm may build it
+                    inside = False
+                    for nn, anc in walk_anc(f.body):
+                        if nn is n:
+                            for a in anc:
+                                if a.get("k") is None and "pat" in a and any(k == ("int", 0x2F) for k in pat_keys(a["pat"])[0]):
+                                    inside = True
+                    if inside:
+                        rep.holds("R-PWD", key, loc(n), "Password built in the FILEPASS arm", nontrivial=False)
+                    else:
+                        rep.violation("R-PWD", key + "|outside-filepass", loc(n), "xls::Xls::parse_workbook builds XlsError::Password outside the FILEPASS (0x002F) arm: a workbook without a FILEPASS record (not encrypted) could be reported as password protected")
+                elif f.name in allowed:
                     rep.holds("R-PWD", key, loc(n), "Password built at a designated detection site", nontrivial=False)
                 else:
                     rep.violation("R-PWD", key, loc(n), "%s builds a Password error outside the four detection sites: an unencrypted workbook could be reported as password protected" % f.name)
